@@ -478,7 +478,8 @@ func (a *AndExpr) IsNullable() bool {
 
 // InitialNames returns names of nodes with which an expression can begin.
 func (a *AndExpr) InitialNames() map[string]struct{} {
-	return make(map[string]struct{})
+	// The predicate evaluates its operand at the current position.
+	return a.Expr.InitialNames()
 }
 
 // NotExpr is a zero-length matcher that is considered a match if the
@@ -517,7 +518,8 @@ func (n *NotExpr) IsNullable() bool {
 
 // InitialNames returns names of nodes with which an expression can begin.
 func (n *NotExpr) InitialNames() map[string]struct{} {
-	return make(map[string]struct{})
+	// The predicate evaluates its operand at the current position.
+	return n.Expr.InitialNames()
 }
 
 // ZeroOrOneExpr is an expression that can be matched zero or one time.
